@@ -234,11 +234,15 @@ def generate(rng, tier, boost):
         cases.append((1506, [[weight_tx(rng) for _ in range(rng.randrange(0, 6))]]))
     for n in (252, 253, 254):                           # CompactSize boundary of the count
         cases.append((1506, [[small_tx(rng) for _ in range(n)]]))
-    # weights against the wire model (engines 1507/1508): transactions/blocks as values
+    # weights against the wire model (engines 1507/1508/1509): transactions/blocks as values
     from . import wiregen as W
     for _ in range(400 if (tier == 'thorough' or boost) else 60):
         t = W.rand_tx(rng, nout=rng.choice([0, 1, 1, 2, 3]))
         cases.append((1507, [t]))
+        # 1509: the weight of a mutable transaction follows its current fields (ask, edit in place, ask again)
+        t2 = W.rand_tx(rng, nout=rng.choice([1, 1, 2, 3]))
+        if len(t[2]) > 0:
+            cases.append((1509, [t, t2]))
     for _ in range(100 if (tier == 'thorough' or boost) else 12):
         cases.append((1508, [W.rand_block(rng)]))
     return cases
